@@ -1111,6 +1111,24 @@ impl ConfigBuilder {
     pub fn build(&self) -> Result<Config, ConfigBuilderError> {
         // check all constraints on config
 
+        // The default transmit size and the default mesh parameters apply to every topic without
+        // an explicit entry, so they are validated unconditionally.
+        if self.config.protocol.default_max_transmit_size < 100 {
+            return Err(ConfigBuilderError::MaxTransmissionSizeTooSmall);
+        }
+        {
+            let default = &self.config.topic_configuration.default_mesh_params;
+            if !(default.mesh_outbound_min <= default.mesh_n_low
+                && default.mesh_n_low <= default.mesh_n
+                && default.mesh_n <= default.mesh_n_high)
+            {
+                return Err(ConfigBuilderError::MeshParametersInvalid);
+            }
+            if default.mesh_outbound_min * 2 > default.mesh_n {
+                return Err(ConfigBuilderError::MeshOutboundInvalid);
+            }
+        }
+
         let pre_configured_topics = self.config.protocol.max_transmit_sizes.keys();
         for topic in pre_configured_topics {
             if self.config.protocol.max_transmit_size_for_topic(topic) < 100 {
